@@ -454,10 +454,12 @@ impl GitignoreBuilder {
         if line.starts_with("#") {
             return Ok(self);
         }
-        // Trailing whitespace is ignored, unless it is a space quoted with a
+        // Trailing spaces are ignored, unless it is a space quoted with a
         // backslash (which itself isn't quoted, hence the parity check). That
-        // one space is kept, whatever follows it is still dropped.
-        let trimmed = line.trim_right();
+        // one space is kept, whatever follows it is still dropped. Other
+        // kinds of whitespace (a tab, say) are part of the pattern, as they
+        // are for git.
+        let trimmed = line.trim_end_matches(' ');
         let backslashes =
             trimmed.bytes().rev().take_while(|&b| b == b'\\').count();
         line = if backslashes % 2 == 1
